@@ -74,6 +74,17 @@ CLAIMS = {
               "re-extracted from the AST and re-checked in Lean on every run. numba's implementation of prange is outside "
               "the model: the real code is run under JIT for thread counts 1..16, list lengths around the thread count, "
               "chunk sizes, repetitions, concurrent callers and (thorough) the workqueue layer, comparing bit-for-bit.")),
+    "C13": dict(
+        category="proof", design_ref="DESIGN.md §8 C13",
+        technique="Lean 4 decision-logic theorems about the model of the kernels and list wrappers (error iff outside; list = mapM single) + AST facts about raise statements in parallel loops + single/list API requests under JIT",
+        text=("Proved for every scalar type: the solver kernels fail iff the source is outside the closed model and then "
+              "with 'source out of bound'; ray requests fail only with 'end point out of bound' (iff outside the hull) or "
+              "the step budget; gradient access without return_gradient raises; the list wrappers equal mapM of the single "
+              "call, so single and list calls raise identically wherever the offending item sits. The structural reason - "
+              "every raise reachable in a parallel loop is guarded by an identical sequential pre-check, ray statuses are "
+              "raised after the loop - is re-extracted from the AST on every run. numba's exception propagation is outside "
+              "the model and exercised by single/list requests in interpreter and JIT mode (positions, lengths, thread "
+              "counts, one-ulp/near/far outside, each axis and side, missing gradient, exhausted budget, valid requests).")),
 }
 
 WIP = "check not registered yet in this revision (model/theorems under construction); see DESIGN.md §8"
